@@ -16,7 +16,9 @@ AppendSub(cont, field, x) == [cont EXCEPT ![Len(cont)] = [@ EXCEPT ![field] = Ap
 
 ApplyCall(cont, c) ==
   LET A(p) == [ok |-> TRUE, cont |-> Append(cont, p)] IN
-  CASE c.fn = "Notification" -> A([k |-> "N", proto |-> c.proto, ntype |-> c.ntype, spi |-> c.spi, data |-> c.data])
+  CASE c.fn = "Reset" -> [ok |-> TRUE, cont |-> << >>]
+    [] c.fn = "NewMessage" -> [ok |-> TRUE, cont |-> cont]        \* the new message retains the container's payload list (see Run)
+    [] c.fn = "Notification" -> A([k |-> "N", proto |-> c.proto, ntype |-> c.ntype, spi |-> c.spi, data |-> c.data])
     [] c.fn = "Certificate" -> A([k |-> "CERT", enc |-> c.enc, data |-> c.data])
     [] c.fn = "Encrypted" -> A([k |-> "SK", next |-> c.next, data |-> c.data])
     [] c.fn = "KeyExchange" -> A([k |-> "KE", grp |-> c.grp, data |-> c.data])
@@ -77,12 +79,19 @@ NewMessageD(c, cont) ==
   [ispi |-> c.ispi, rspi |-> c.rspi, maj |-> 2, min |-> 0, xt |-> c.xt,
    flags |-> (IF c.response THEN 32 ELSE 0) + (IF c.initiator THEN 8 ELSE 0), mid |-> c.mid, payloads |-> cont]
 
-RECURSIVE Run(_, _, _)
-Run(cont, calls, i) ==     \* the steps of a builder program, with the expected container after each call
+\* the steps of a builder program, with the expected container after each call and the expected contents of every
+\* message created so far from the container (held): a later call -- in particular after Reset -- must not change them
+RECURSIVE RunH(_, _, _, _)
+RunH(cont, held, calls, i) ==
   IF i > Len(calls) THEN << >>
-  ELSE LET r == ApplyCall(cont, calls[i]) IN
-       << Step("build", "C19", FALSE, [call |-> calls[i]], [panic |-> FALSE, err |-> ~r.ok, cont |-> NormChain(r.cont)]) >>
-       \o Run(r.cont, calls, i + 1)
+  ELSE LET c == calls[i] r == ApplyCall(cont, c) IN
+       IF c.fn = "NewMessage"
+         THEN << Step("new_message", "C19", FALSE, [call |-> c],
+                      [panic |-> FALSE, msg |-> Norm(NewMessageD(c, cont)), isresp |-> c.response, isinit |-> c.initiator]) >>
+              \o RunH(cont, Append(held, NormChain(cont)), calls, i + 1)
+         ELSE << Step("build", "C19", FALSE, [call |-> c], [panic |-> FALSE, err |-> ~r.ok, cont |-> NormChain(r.cont), held |-> held]) >>
+              \o RunH(r.cont, held, calls, i + 1)
+Run(cont, calls, i) == RunH(cont, << >>, calls, i)
 RECURSIVE Final(_, _)
 Final(cont, calls) == IF Len(calls) = 0 THEN cont ELSE Final(ApplyCall(cont, Head(calls)).cont, Tail(calls))
 
